@@ -193,6 +193,18 @@ func (t *topoRun) connect(s *mserver) {
 	s.stream = st
 	go func() { st.done <- t.m.MS.SendHeartbeat(st) }()
 	reg := vsState{vols: map[uint32]mvol{}, ecs: map[uint32]mec{}, max: map[string]uint32{}}
+	if s.reg != nil {
+		// the previous stream of this server is still registered (reconnect race): the master keeps its node, and a
+		// reported max of 0 means "not configured", which changes nothing - so the earlier figures stay in force
+		for k, v := range s.reg.max {
+			reg.max[k] = v
+		}
+		// ... and its volumes stay registered on that node: the new stream's first heartbeat is no new registration
+		// for them (what was recorded when they were registered, e.g. "oversized", stays as it was)
+		for k, v := range s.reg.vols {
+			reg.vols[k] = v
+		}
+	}
 	s.reg = &reg
 	t.applyFull(s, s.actual, true)
 	t.send(s, t.fullMsg(s, s.actual, true))
@@ -376,6 +388,13 @@ func (t *topoRun) mutate(s *mserver, st *simkit.Step, rng *simkit.Rand) {
 	case "ro":
 		if v, ok := s.actual.vols[vid]; ok {
 			v.RO = st.Int("on") == 1
+			s.actual.vols[vid] = v
+		}
+	case "roremote":
+		// a tier upload/download completing within one pulse: read-only and remote flags change together
+		if v, ok := s.actual.vols[vid]; ok {
+			v.RO = st.Int("on") == 1
+			v.Remote = st.Int("on") == 1
 			s.actual.vols[vid] = v
 		}
 	case "size":
@@ -654,6 +673,22 @@ func (t *topoRun) checkC11once(after string, final bool) bool {
 				r.Violate("lookup-differs-from-registered", key, "after %s: Lookup(%q,%d) = %v, registered servers are %v", after, k.col, vid, got, want)
 				return true
 			}
+			if k.col != "" {
+				// a lookup that does not name the collection (clients that only know the file id) finds the volume all the same
+				var got2 []string
+				for _, dn := range topo.Lookup("", needle.VolumeId(vid)) {
+					got2 = append(got2, string(dn.Id()))
+				}
+				sort.Strings(got2)
+				if strings.Join(got2, ",") != strings.Join(want, ",") {
+					key := "lookup-api-without-collection"
+					if tn := t.anyTaint(); tn != "" {
+						key = tn
+					}
+					r.Violate("lookup-differs-from-registered", key, "after %s: Lookup(\"\",%d) = %v, the volume (collection %q) is registered on %v", after, vid, got2, k.col, want)
+					return true
+				}
+			}
 		}
 	}
 	return true
@@ -902,7 +937,11 @@ func genTopo(prop string) func(tier string, seed uint64, idx int) *simkit.Plan {
 				}
 				p.Add(simkit.St("mutate", rng.Uint64(), "node", n, "what", "size", "vid", vid, "size", sz))
 			case x < 52:
-				p.Add(simkit.St("mutate", rng.Uint64(), "node", n, "what", "remote", "vid", vid, "on", rng.Intn(2)))
+				what := "remote"
+				if rng.Chance(1, 2) {
+					what = "roremote"
+				}
+				p.Add(simkit.St("mutate", rng.Uint64(), "node", n, "what", what, "vid", vid, "on", rng.Intn(2)))
 			case x < 55 && prop == "C12":
 				p.Add(simkit.St("mutate", rng.Uint64(), "node", n, "what", "max", "disk", disks[rng.Intn(3)], "n", rng.Range(0, 12)))
 			case x < 62 && prop == "C12":
